@@ -40,7 +40,8 @@ CFG = {
                   "element index, nothing read is written; a pool of workers draining a job queue is an interleaving of "
                   "the jobs (pool_schedule_is_job_interleaving), so the all-interleavings theorems cover AddFieldParallel's "
                   "and marchFloat1Parallel's worker pools; a block marched once more or less changes the triangle "
-                  "multiset. The model is tied to the Go code on every run: all 9 mesh entry points for ALL "
+                  "multiset; AddFieldParallel2 (workers compute, the caller adds the arrays in arrival order) leaves every cell as "
+                  "AddField for any arrival order (addfield_collector_any_arrival_order). The model is tied to the Go code on every run: all 9 mesh entry points for ALL "
                   "n <= 40 x pool <= 20 plus sampled n up to 2e6, per-index atomic call counters and value sums, outputs "
                   "compared with the sequential entry point, with the ideal observation (direct oracle) and with the "
                   "model run on three schedules; AddField/AddFieldParallel chunk tables (read back by reflection, bitwise) "
@@ -86,7 +87,10 @@ CFG = {
             "canvases (1, 2, 8 blocks, negative chunk, box ending on a chunk boundary, nothing crossing the cutoff, two "
             "overlapping fields, empty canvas), 7 canvases with 2-3 attributes (marched attribute owning block (0,0,0) next "
             "to foreign blocks, attribute introduced by a later field, MarchOnAttribute[Parallel] on the 2nd/3rd "
-            "attribute, on a missing attribute (declared panic in both), 2 and 1/2 cubes per unit), seam canvases (signed-distance spheres whose min/max along each axis lies "
+            "attribute, on a missing attribute (declared panic in both), 2, 1/2 and 32 cubes per unit, the last with samples "
+            "exactly on the cutoff), 8 canvases filled by AddFieldParallel2 instead of AddFieldParallel (1-3 Float1 "
+            "functions, 1 / 2 / 8 blocks, 18 jobs for NumCPU workers, negative chunks, an empty job, 2 cubes per unit; both "
+            "binaries; also as a third way of adding inside the random operation sequences), seam canvases (signed-distance spheres whose min/max along each axis lies "
             "inside, a hair inside, just short of or just across the one-cell seam between two blocks, borders -100..200, "
             "2 tripods + 3 mixed + 3 random in quick, 60 + 40 random in thorough), canvases with more jobs than the "
             "runtime.NumCPU() pool workers (a tube through NumCPU+4 surface-bearing blocks marched at GOMAXPROCS 2 and, "
